@@ -92,7 +92,7 @@ type mGroup struct {
 
 type roomStats struct {
 	joinsOK, joinsRefused, refusedAfterHeld, modApplied, kicks, leaves, chatsDirected, chatsBroadcast, spoofs,
-	histJoins, histJoinsOver50, permChanges, tokenOps, refusedNonMember, disconnects, crossGroupTokenOps, listInSubgroup, listAnswered, listHier int
+	histJoins, histJoinsOver50, permChanges, tokenOps, refusedNonMember, disconnects, crossGroupTokenOps, listInSubgroup, listAnswered, listHier, deadWriters int
 	refusedReasons map[string]int
 	ops            []string
 }
@@ -757,7 +757,32 @@ func (r *room) doChat(sc *simClient) {
 		r.st.refusedNonMember++
 	}
 	sort.Strings(rcpts)
-	r.opf("%s sends %s kind=%q dest=%q noecho=%v -> %v", sc.id, typ, kind, dest, m.NoEcho, rcpts)
+	// a member whose socket writer has just died (write error or write deadline) but whose loop has not noticed yet is
+	// still a member: it receives nothing, and everybody else still receives the broadcast
+	var dead *simClient
+	if allowed && dest == "" && len(g.members) >= 3 && rapid.IntRange(0, 3).Draw(t, "aWriterJustDied") == 0 {
+		var others []string
+		for id := range g.members {
+			if id != sc.id {
+				others = append(others, id)
+			}
+		}
+		sort.Strings(others)
+		did := others[rapid.IntRange(0, len(others)-1).Draw(t, "deadWriter")]
+		for _, o := range r.s.cs {
+			if o.id == did && !o.closed {
+				dead = o
+			}
+		}
+		if dead != nil {
+			dead.drain()
+			dead.c.writeCh = make(chan interface{}) // nobody reads any more
+			close(dead.c.writerDone)
+			rcpts = slices.DeleteFunc(rcpts, func(id string) bool { return id == did })
+			r.st.deadWriters++
+		}
+	}
+	r.opf("%s sends %s kind=%q dest=%q noecho=%v -> %v (dead writer: %v)", sc.id, typ, kind, dest, m.NoEcho, rcpts, dead != nil)
 	wasOp := me != nil && has(me.perms, "op")
 	if err := r.s.send(sc, m); err != nil {
 		t.Fatalf("chat closed the connection: %v", err)
@@ -798,9 +823,16 @@ func (r *room) doChat(sc *simClient) {
 			if !allowed {
 				fam = "C11"
 			}
-			t.Fatalf("%s: %s from %s (member=%v perms=%v, needs %q) dest=%q noecho=%v: %s received %d copies, want %d",
-				fam, typ, sc.id, me != nil, permsOf(me), need, dest, m.NoEcho, o.id, n, want)
+			t.Fatalf("%s: %s from %s (member=%v perms=%v, needs %q) dest=%q noecho=%v: %s received %d copies, want %d (a member with a dead writer present: %v)",
+				fam, typ, sc.id, me != nil, permsOf(me), need, dest, m.NoEcho, o.id, n, want, dead != nil)
 		}
+	}
+	if dead != nil {
+		// now its loop notices and the member is gone
+		r.opf("%s's loop notices the dead writer", dead.id)
+		r.removeMember(dead.id)
+		r.s.terminate(dead, ErrClientDead)
+		r.s.pump()
 	}
 }
 
@@ -1594,6 +1626,7 @@ func (r *room) classes(rec *verifkit.Rec) {
 	rec.ClassN("chats_broadcast", r.st.chatsBroadcast)
 	rec.ClassN("chats_directed", r.st.chatsDirected)
 	rec.ClassN("spoofed_messages", r.st.spoofs)
+	rec.ClassN("broadcasts_with_a_dead_writer_member_present", r.st.deadWriters)
 	rec.ClassN("privileged_attempts_by_non_members", r.st.refusedNonMember)
 	rec.ClassN("token_operations", r.st.tokenOps)
 	rec.ClassN("definition_unreadable_for_a_moment_with_members_present", r.flaps)
